@@ -5,6 +5,7 @@ import (
 	"fmt"
 	"math"
 	"math/big"
+	"os"
 	"reflect"
 	"strings"
 
@@ -13,22 +14,41 @@ import (
 )
 
 func main() {
+	if len(os.Args) > 2 && os.Args[1] == "crashprobe" {
+		crashProbe(os.Args[2])
+	}
 	env := FromFlags("c16")
 	env.Import = "Otto.C16.Corr"
-	env.Rule = "numeric cells: every (source payload kind x Go target kind) pair with the boundary values of both kinds (+-1, +-0.5), NaN, +-Infinity, -0, float32/float64 precision edges, through seven paths (parameter, struct field, variadic tail, slice/map element, pointer, struct literal); element stores into []T, *[N]T, map[string]T with numbers and coerced primitives; arity sweeps; non-trivial = distinct case that is not a small in-range integer of the same kind"
+	env.Rule = "numeric cells: every (source payload kind x Go target kind) pair with the limits of both kinds +-2 (+-0.5 and the neighbouring doubles for float sources), NaN, +-Infinity, -0, float32/float64 precision and range edges, through seven paths (parameter, struct field, variadic tail, slice/map element, pointer, struct literal); element stores into []T, *[N]T, map[string]T and the append position with numbers of every payload kind and coerced primitives; arity sweeps 0..4 parameters x 0..6 arguments, variadic or not; interleaved script/Go histories (2-8 operations: get, set, delete, length, set length, push, pop, keys, in, Go get/set/len/append/reslice) on []int by value and as a field of *struct, *[N]int, map[string]int, *struct with tags/embedded/unexported/hidden fields and random reflect.StructOf tables; calls of reflect-built signatures (depth <= 2 over numbers, bool, string, interface{}, slices, maps, pointers, structs, variadics) with mostly well-shaped arguments; multiple return values; pinned witnesses of every listed finding first. non-trivial = distinct case other than a small in-range integer of the same kind"
 	g := &gen{env: env}
 	g.pinned()
+	g.pinnedHists()
+	g.pinnedWitnesses()
 	g.sweepNum()
 	g.sweepStore()
 	g.sweepArity()
 	for env.Count() < env.N {
-		switch env.Rng.Intn(10) {
-		case 0, 1, 2, 3:
+		switch env.Rng.Intn(28) {
+		case 0, 1, 2:
 			g.randNum()
-		case 4, 5, 6, 7:
+		case 3, 4, 5:
 			g.randStore()
-		default:
+		case 6:
 			g.randArity()
+		case 7, 8, 9, 10, 11:
+			g.sliceHist()
+		case 12, 13:
+			g.arrayHist()
+		case 14, 15, 16:
+			g.mapHist()
+		case 17, 18, 19:
+			g.structHist()
+		case 20:
+			g.retCase()
+		case 21, 22:
+			g.anyCase()
+		default:
+			g.callCase()
 		}
 	}
 	env.Finish()
@@ -374,7 +394,7 @@ func (g *gen) numCase(path int, n numv, tgt int) {
 
 func (g *gen) sweepNum() {
 	r := g.env.Rng
-	budget := g.env.N * 2 / 5
+	budget := g.env.N / 4
 	type cell struct {
 		src, tgt int
 		n        numv
@@ -523,7 +543,7 @@ func (g *gen) storeCase(cont int, v sval, tgt int) {
 
 func (g *gen) sweepStore() {
 	r := g.env.Rng
-	budget := g.env.N * 3 / 10
+	budget := g.env.N / 5
 	type cell struct {
 		tgt int
 		v   sval
@@ -655,3 +675,5 @@ func (g *gen) pinned() {
 	// class 5: failed store is a Go panic
 	g.storeCase(0, svalOfNum(i64(300)), 1)
 }
+
+func negZero() float64 { return math.Copysign(0, -1) }
